@@ -84,17 +84,41 @@ def runActions : List (List String) â†’ Session â†’ List UInt8 â†’ List UInt8 â†
       | .authFail => some (("rx=err:auth" :: out).reverse, none, w)
     | _ => none
 
-def runEp (role : String) (magic : Nat) (pre seed : List UInt8) (gLen : Nat) (decoys : List Nat)
+/-- flags after `+` in the role token of an `ep` line: `A<n>` admission mode, `L` logger on (no
+effect on the observation), `N<hex>` the network passed to CompleteHandshake (the responder derives
+its keys in RespondV2Handshake, so only the initiator uses it) -/
+structure EpFlags where
+  adm : Nat := 0
+  magic2 : Option Nat := none
+
+def parseFlags (toks : List String) : Option EpFlags :=
+  toks.foldlM (fun (f : EpFlags) (t : String) =>
+    if t == "L" then some f
+    else if t.startsWith "A" then (t.drop 1).toString.toNat?.map (fun n => { f with adm := n })
+    else if t.startsWith "N" then (hexToNat? (t.drop 1).toString).map (fun n => { f with magic2 := some n })
+    else none) {}
+
+def runEp (roleTok : String) (magic : Nat) (pre seed : List UInt8) (gLen : Nat) (decoys : List Nat)
     (inp : List UInt8) (acts : List (List String)) : Option String := do
+  let parts := roleTok.splitOn "+"
+  let role := parts.headD ""
+  let fl â† parseFlags (match parts with | [_, fs] => fs.splitOn "," | _ => [])
   let rnd := rndStream pre seed (32 + 33 * 256 + (min gLen 4096))
-  let h â† if role == "i" then some (initiator CP hkdfSha256 magic rnd gLen decoys inp)
-          else if role == "r" then some (responder CP hkdfSha256 magic rnd gLen decoys inp) else none
+  let (h, acq, rel) â†
+    if role == "i" then some (initiator CP hkdfSha256 (fl.magic2.getD magic) rnd gLen decoys inp, 0, 0)
+    else if role == "r" then some (responderAdm CP hkdfSha256 magic rnd gLen decoys inp fl.adm) else none
+  let stopped := h.status == .garbageTooLarge || (h.status == .admission && acq == 1)
+  let pfx := if role == "i" then [] else responderPrefix magic inp stopped
+  -- without an installed admission nothing is counted
+  let (acq, rel) := if fl.adm == 0 then (0, 0) else (acq, rel)
+  let common := ["pfx=" ++ listToHexTok pfx, "dg=" ++ (if h.status == .downgradeV1 then "1" else "0"),
+    "adm=" ++ toString acq ++ "," ++ toString rel]
   match h.status, h.sess with
   | .ok, some s =>
     let (outs, s', w) â† runActions acts s h.rest h.written []
-    pure (String.intercalate " " (["hs=ok", "sid=" ++ listToHex s.sessionId] ++ outs ++
+    pure (String.intercalate " " (["hs=ok"] ++ common ++ ["sid=" ++ listToHex s.sessionId] ++ outs ++
       (match s' with | some s' => ["k=" ++ keysDigest s'] | none => []) ++ ["w=" ++ digest w]))
-  | st, _ => pure ("hs=err:" ++ st.toString ++ " w=" ++ digest h.written)
+  | st, _ => pure (String.intercalate " " (["hs=err:" ++ st.toString] ++ common ++ ["w=" ++ digest h.written]))
 
 /-- stream tampering shared with the Go harness (all offsets clamp like `List.take`/`List.drop`) -/
 def tamper1 (w : List UInt8) (op : String) : Option (List UInt8) :=
